@@ -3,10 +3,12 @@ package main
 // Calls: builtins, contracts (checked or trusted), inlining, sinks; maps; defers; channels.
 
 import (
-	"os"
 	"fmt"
+	"go/token"
 	"go/types"
 	"math/big"
+	"os"
+	"sort"
 	"strings"
 
 	"golang.org/x/tools/go/ssa"
@@ -82,19 +84,29 @@ func (g *Gen) call(fr *frame, st *State, site ssa.Instruction, cc *ssa.CallCommo
 	if g.mutexOp(st, key, args) {
 		return &Value{T: rt}
 	}
-	if fr.fc != nil && len(fr.fc.AtCall) > 0 && len(fr.fc.AtCall[shortName(key)]) > 0 {
-		// the callee's parameter names denote the actual arguments of this call
-		avars := map[string]*Value{}
-		cfc := g.W.C.Funcs[key]
-		if cfc == nil {
-			cfc = &FuncContract{}
+	if fr.fc != nil && len(fr.fc.AtCall) > 0 {
+		// "at f assert" applies to every call of f in the function, "at f#2 assert" to the second one in source order
+		names := []string{shortName(key)}
+		if ord := siteOrdinal(fr.fn, site, shortName(key)); ord > 0 {
+			names = append(names, fmt.Sprintf("%s#%d", shortName(key), ord))
 		}
-		for k, n := range g.paramNames(cfc, callee, cc, len(args)) {
-			if k < len(args) {
-				avars[n] = args[k]
+		for _, nm := range names {
+			if len(fr.fc.AtCall[nm]) == 0 {
+				continue
 			}
+			// the callee's parameter names denote the actual arguments of this call
+			avars := map[string]*Value{}
+			cfc := g.W.C.Funcs[key]
+			if cfc == nil {
+				cfc = &FuncContract{}
+			}
+			for k, n := range g.paramNames(cfc, callee, cc, len(args)) {
+				if k < len(args) {
+					avars[n] = args[k]
+				}
+			}
+			g.atCallClauses(fr, st, nm, avars)
 		}
-		g.atCallClauses(fr, st, shortName(key), avars)
 	}
 	fc := g.W.C.Funcs[key]
 	// inline: closures created here, or functions marked inline
@@ -170,6 +182,44 @@ func (g *Gen) atCallClauses(fr *frame, st *State, name string, avars map[string]
 		g.atSeen[ck]++
 		g.addOblig(st, "assert", fmt.Sprintf("at.%s.%s", name, clauseName(cl, i)), t, cl.Src)
 	}
+}
+
+// siteOrdinal: the 1-based position, in source order, of the call instruction `site` among the calls in fn whose
+// callee has the short name `name` (static callees and interface methods); 0 if it cannot be determined.
+func siteOrdinal(fn *ssa.Function, site ssa.Instruction, name string) int {
+	if site == nil {
+		return 0
+	}
+	type cs struct {
+		pos token.Pos
+		in  ssa.Instruction
+	}
+	var sites []cs
+	for _, b := range fn.Blocks {
+		for _, in := range b.Instrs {
+			ci, ok := in.(ssa.CallInstruction)
+			if !ok {
+				continue
+			}
+			cc := ci.Common()
+			n := ""
+			if cc.IsInvoke() {
+				n = cc.Method.Name()
+			} else if f := cc.StaticCallee(); f != nil {
+				n = f.Name()
+			}
+			if n == name {
+				sites = append(sites, cs{in.Pos(), in})
+			}
+		}
+	}
+	sort.SliceStable(sites, func(i, j int) bool { return sites[i].pos < sites[j].pos })
+	for i, c := range sites {
+		if c.in == site {
+			return i + 1
+		}
+	}
+	return 0
 }
 
 // dynCallName: the field name of a call through a function-typed field (x.f(...)), "" otherwise.
